@@ -10,12 +10,29 @@ package main
 
 import (
 	"errors"
+	"fmt"
 	"io"
 
 	"verif/engine/choice"
 )
 
 var errInjected = errors.New("injected stream error")
+
+// The values an injected error can take. Only a bare io.EOF is the end of a
+// stream: each of these is a failure, whatever it wraps.
+var readErrValues = []error{
+	errInjected,
+	fmt.Errorf("connection reset by peer: %w", io.EOF),
+	fmt.Errorf("reading body: %w", io.ErrUnexpectedEOF),
+	io.ErrUnexpectedEOF,
+	io.ErrClosedPipe,
+}
+var writeErrValues = []error{
+	errInjected,
+	io.ErrShortWrite,
+	io.ErrClosedPipe,
+	fmt.Errorf("broken pipe: %w", io.EOF),
+}
 var errCloseFailed = errors.New("injected close error")
 
 // after an injected error the stream
@@ -26,12 +43,13 @@ const (
 )
 
 type sreader struct {
-	Name  string
-	Data  []byte
-	C     *choice.Chooser
-	Zero  int  // zero-length reads (0, nil) offered
-	Errs  int  // injected errors offered
-	Plain bool // informational: handed out without Close (see plainR)
+	Name    string
+	Data    []byte
+	C       *choice.Chooser
+	Zero    int  // zero-length reads (0, nil) offered
+	Errs    int  // injected errors offered
+	ErrVals int  // how many of readErrValues an injected error may be (<=1: the plain sentinel only)
+	Plain   bool // informational: handed out without Close (see plainR)
 
 	CloseFaults bool // Close may fail (it still closes)
 
@@ -54,6 +72,7 @@ type ropt struct {
 	zero bool
 	err  bool
 	mode int
+	val  int // index into readErrValues
 }
 
 func (r *sreader) Read(p []byte) (int, error) {
@@ -103,10 +122,16 @@ func (r *sreader) Read(p []byte) (int, error) {
 		if m > 0 {
 			ks = append(ks, m)
 		}
-		for _, k := range ks {
-			opts = append(opts, ropt{n: k, err: true, mode: modeSticky}, ropt{n: k, err: true, mode: modeResume})
-			if k < len(rem) { // bytes remain after this call: they can also be lost
-				opts = append(opts, ropt{n: k, err: true, mode: modeEOF})
+		nv := r.ErrVals
+		if nv < 1 {
+			nv = 1
+		}
+		for val := 0; val < nv && val < len(readErrValues); val++ {
+			for _, k := range ks {
+				opts = append(opts, ropt{n: k, err: true, mode: modeSticky, val: val}, ropt{n: k, err: true, mode: modeResume, val: val})
+				if k < len(rem) { // bytes remain after this call: they can also be lost
+					opts = append(opts, ropt{n: k, err: true, mode: modeEOF, val: val})
+				}
 			}
 		}
 	}
@@ -126,13 +151,14 @@ func (r *sreader) Read(p []byte) (int, error) {
 		if n > 0 {
 			r.WithData++
 		}
+		e := readErrValues[o.val]
 		switch o.mode {
 		case modeSticky:
-			r.sticky = errInjected
+			r.sticky = e
 		case modeEOF:
 			r.Lost = true
 		}
-		return n, errInjected
+		return n, e
 	}
 	n := copy(p, rem[:o.n])
 	r.Pos += n
@@ -159,6 +185,7 @@ type swriter struct {
 	Name        string
 	C           *choice.Chooser
 	Errs        int  // injected errors offered
+	ErrVals     int  // how many of writeErrValues an injected error may be (<=1: the plain sentinel only)
 	CloseFaults bool // Close may fail (it still closes)
 
 	Buf             []byte
@@ -184,16 +211,24 @@ func (w *swriter) Write(p []byte) (int, error) {
 		return 0, w.sticky
 	}
 	if w.Errs > 0 && w.C != nil {
-		type wopt struct{ n, mode int }
-		opts := []wopt{{len(p), -1}, {0, modeSticky}, {0, modeResume}}
-		if len(p) > 1 {
-			// short write: io.Writer demands an error with it
-			opts = append(opts, wopt{1, modeSticky}, wopt{1, modeResume})
+		type wopt struct{ n, mode, val int }
+		opts := []wopt{{len(p), -1, 0}}
+		nv := w.ErrVals
+		if nv < 1 {
+			nv = 1
 		}
-		if len(p) > 2 {
-			opts = append(opts, wopt{len(p) - 1, modeSticky}, wopt{len(p) - 1, modeResume})
+		for val := 0; val < nv && val < len(writeErrValues); val++ {
+			opts = append(opts, wopt{0, modeSticky, val}, wopt{0, modeResume, val})
+			if len(p) > 1 {
+				// short write: io.Writer demands an error with it
+				opts = append(opts, wopt{1, modeSticky, val}, wopt{1, modeResume, val})
+			}
+			if len(p) > 2 {
+				opts = append(opts, wopt{len(p) - 1, modeSticky, val}, wopt{len(p) - 1, modeResume, val})
+			}
 		}
 		if o := opts[w.C.Choose(w.Name+".Write", len(opts))]; o.mode >= 0 {
+			e := writeErrValues[o.val]
 			w.Errs--
 			w.Buf = append(w.Buf, p[:o.n]...)
 			w.Delivered++
@@ -201,9 +236,9 @@ func (w *swriter) Write(p []byte) (int, error) {
 				w.Short++
 			}
 			if o.mode == modeSticky {
-				w.sticky = errInjected
+				w.sticky = e
 			}
-			return o.n, errInjected
+			return o.n, e
 		}
 	}
 	w.Buf = append(w.Buf, p...)
